@@ -156,7 +156,8 @@ fn domain_x(op: &Op) -> (i64, i64) {
         // TaylorExponent: [-10, 10] is the interval its tests sweep (the source bounds the exponent by
         // 31 - p binary digits, which contains it for every admitted p <= 15); below -10 the source
         // documents a result of 0, so the left tail (to -32) is part of the domain too
-        Op::Taylor { p, .. } => (-(32i64 << p), 10i64 << p),
+        // upper end: the source limits the exponent x*log2(e) by 31 - p binary digits
+        Op::Taylor { p, .. } => (-(32i64 << p), ((((31 - p) as f64) * std::f64::consts::LN_2 * ((1u64 << p) as f64)) as i64 - 1).max(10i64 << p)),
         // ApproxExponent approximates on [-16, 16], flat on the left
         Op::PwlExp { p } => (-(32i64 << p), 16i64 << p),
         // sigmoid: flat on both sides
